@@ -287,6 +287,10 @@ class Reshape(ArrayExpr):
     @functools.cached_property
     def _reshape_chunks(self):
         """Compute input and output chunks for reshape."""
+        if 0 in self.array.shape:
+            # No data to move, and reshape_rechunk cannot pair up zero-width
+            # blocks: one empty block in, one empty block out.
+            return tuple((d,) for d in self.array.shape), tuple((d,) for d in self._shape)
         inchunks, outchunks, _, _ = reshape_rechunk(self.array.shape, self._shape, self.array.chunks)
         return inchunks, outchunks
 
